@@ -260,7 +260,7 @@ def find_stylesheets(wrapper_element, device_media_type, url_fetcher, base_url,
         if mime_type != 'text/css':
             continue
         media_attr = element.get('media', '').strip() or 'all'
-        media = [media_type.strip() for media_type in media_attr.split(',')]
+        media = [media_type.strip().lower() for media_type in media_attr.split(',')]
         if not media_queries.evaluate_media_query(media, device_media_type):
             continue
         if element.tag == 'style':
